@@ -184,7 +184,7 @@ def stage_emit(ctx, col, drv):
                    behaviours_replayed=len(pick))
     if rj:
         st = rj["status"]
-        if st.get("ok", 0) < 0.9 * len(pick) and not col.reports:
+        if st.get("ok", 0) < 0.9 * len(pick) and not col.reports and not col.stuck:
             raise Broken("only %s of %d behaviours replayed to the end: %s" % (st.get("ok"), len(pick), st))
         col.cov.update(replay_status=st, replay_steps_compared=rj["steps_compared"], replay_ops=rj["ops"],
                        replay_schedule_retries=rj["schedule_retries"])
@@ -346,11 +346,15 @@ def run(ctx):
                 f.result()
             except Exception as e:      # let the other stages finish, then fail
                 errs.append(e)
-    # a stuck run counts only if it happens again
+    # a stuck run counts only if it happens again (one repetition per driver run)
+    repeated = {}
     for v, rerun, base in col.stuck:
-        again = rerun() if rerun else True
-        if again:
-            col.reports.append(({"kind": "stuck", "what": v.get("what", "")[:120]}, dict(base, violation=v)))
+        key = id(rerun)
+        if key not in repeated:
+            repeated[key] = rerun() if rerun else True
+        if repeated[key]:
+            col.reports.append(({"kind": "stuck", "what": re.sub(r"round \d+", "a round", v.get("what", ""))[:120]},
+                                dict(base, violation=v)))
         else:
             vlib.log("a run got stuck once (%s) but not when repeated: not reported" % v.get("what"))
             col.cov["unreproduced_stuck"] = col.cov.get("unreproduced_stuck", 0) + 1
